@@ -288,7 +288,7 @@ fn check(case: &Case, st: &mut Stats) -> Vec<Violation> {
     }
     if applied > 0 && hostile > 0 {
         st.nontrivial_runs += 1;
-        st.scripts.insert(crate::stats::fnv(serde_json::to_string(&case.script).unwrap().as_bytes()));
+        if st.scripts.len() < crate::stats::MAX_SET { st.scripts.insert(crate::stats::fnv(serde_json::to_string(&case.script).unwrap().as_bytes())); }
     }
     // sentinel: the well-formed frame after all the hostile input must have been applied
     if v.is_empty() {
